@@ -162,6 +162,10 @@ def opsCorr : List (String × (List String → String)) :=
    ("shoelace", fun args => match args with
       | "Q" :: rest => opShoelace Rat rest
       | "F" :: rest => opShoelace Float rest
-      | _ => "bad-op")]
+      | _ => "bad-op"),
+   -- `chkframes <name> <name> …`: `_check_wcs_structure` on a list of frame names (`-` = no frames)
+   ("chkframes", fun args =>
+      let frms := if args = ["-"] then [] else args
+      if TW.checkFrames frms then "1" else "0")]
 
 end Drv
